@@ -125,23 +125,17 @@ public:
     }
     else
     {
-      if(&value >= _begin.item && &value < _end.item && size > _capacity)
-      { // value is an element of this array and reserve() is about to move it
+      if(size > _capacity)
+      { // reserve() is about to move the elements: value may be one of them or be owned by one of them
         T copy(value);
-        resize(size, copy);
-        return;
+        reserve(size);
+        fill(_begin.item + size, copy);
       }
-      reserve(size);
-      T* end = _begin.item + size;
-      for (T* i = _begin.item + _size; i != end; ++i)
+      else
       {
-#ifdef VERIFY
-        VERIFY(new(i)T(value) == i);
-#else
-        new(i)T(value);
-#endif
+        reserve(size); // (allocates a preset capacity on first use, does not move elements)
+        fill(_begin.item + size, value);
       }
-      _end.item = end;
     }
   }
 
@@ -175,60 +169,53 @@ public:
   T& append(const T& value)
   {
     usize size = _end.item - _begin.item;
-    if(&value >= _begin.item && &value < _end.item && size + 1 > _capacity)
-    { // value is an element of this array and reserve() is about to move it
+    if(size + 1 > _capacity)
+    { // reserve() is about to move the elements: value may be one of them or be owned by one of them
       T copy(value);
-      return append(copy);
+      reserve(size + 1);
+      appendNoGrow(&copy, 1);
     }
-    reserve(size + 1);
-    T* item = _end.item;
-#ifdef VERIFY
-    VERIFY(new(item) T(value) == item);
-#else
-    new(item) T(value);
-#endif
-    ++_end.item;
-    return *item;
+    else
+    {
+      reserve(size + 1); // (allocates a preset capacity on first use, does not move elements)
+      appendNoGrow(&value, 1);
+    }
+    return _end.item[-1];
   }
 
   void append(const Array& values)
   {
     usize size = _end.item - _begin.item;
     usize valuesSize = values.size();
-    reserve(size + valuesSize);
-    T* item = _end.item;
-    for(T* end = item + valuesSize, *src = values._begin.item; item < end; ++item, ++src)
-    {
-#ifdef VERIFY
-      VERIFY(new(item) T(*src) == item);
-#else
-      new(item) T(*src);
-#endif
+    if(size + valuesSize > _capacity)
+    { // reserve() is about to move the elements: values may be this array or be owned by one of its elements
+      Array copy(values);
+      reserve(size + valuesSize);
+      appendNoGrow(copy._begin.item, valuesSize);
     }
-    _end.item = item;
+    else
+    {
+      reserve(size + valuesSize);
+      appendNoGrow(values._begin.item, valuesSize);
+    }
   }
 
   void append(const T* values, usize size)
   {
     usize oldSize = _end.item - _begin.item;
-    if(values >= _begin.item && values < _end.item && oldSize + size > _capacity)
-    { // values point into this array and reserve() is about to move them
+    if(oldSize + size > _capacity)
+    { // reserve() is about to move the elements: values may point into this array or into something its elements own
       Array copy;
-      copy.append(values, size);
-      append(copy);
-      return;
+      copy.reserve(size);
+      copy.appendNoGrow(values, size);
+      reserve(oldSize + size);
+      appendNoGrow(copy._begin.item, size);
     }
-    reserve(oldSize + size);
-    T* item = _end.item;
-    for(T* end = item + size; item < end; ++item, ++values)
+    else
     {
-#ifdef VERIFY
-      VERIFY(new(item) T(*values) == item);
-#else
-      new(item) T(*values);
-#endif
+      reserve(oldSize + size);
+      appendNoGrow(values, size);
     }
-    _end.item = item;
   }
 
   void remove(usize index)
@@ -282,5 +269,33 @@ private:
   Iterator _begin;
   Iterator _end;
   usize _capacity;
+
+private:
+  void appendNoGrow(const T* values, usize size)
+  {
+    T* item = _end.item;
+    for(T* end = item + size; item < end; ++item, ++values)
+    {
+#ifdef VERIFY
+      VERIFY(new(item) T(*values) == item);
+#else
+      new(item) T(*values);
+#endif
+    }
+    _end.item = item;
+  }
+
+  void fill(T* end, const T& value)
+  {
+    for(T* i = _end.item; i != end; ++i)
+    {
+#ifdef VERIFY
+      VERIFY(new(i)T(value) == i);
+#else
+      new(i)T(value);
+#endif
+    }
+    _end.item = end;
+  }
 };
 
